@@ -34,6 +34,7 @@ package oauth
 
 import (
 	"bytes"
+	"context"
 	"crypto"
 	"crypto/ecdsa"
 	"crypto/ed25519"
@@ -41,6 +42,7 @@ import (
 	crand "crypto/rand"
 	"crypto/rsa"
 	"crypto/x509"
+	"database/sql"
 	"encoding/base64"
 	"encoding/json"
 	"fmt"
@@ -729,9 +731,9 @@ func c22CleanRecipe(r *rand.Rand, layout []c22Jwk) c22Recipe {
 // ---------------------------------------------------------------- histories
 
 type c22Op struct {
-	kind string // p rev unrev flush adv advto purge keys
+	kind string // p rev unrev flush adv advto purge keys wf
 	tok  int
-	jti  string
+	jti  string // rev/unrev: the jti; wf: the write fault that holds from now on ("trigger", "lock", "off")
 	dt   int
 	lay  int // keys: index into c22History.layouts of the document the provider serves from now on
 }
@@ -746,6 +748,11 @@ type c22History struct {
 	jwksTTL   int
 	recipes   []c22Recipe
 	ops       []c22Op
+
+	// "" = the server owns the revocation store read-write; "ro" = this server instance has the credentials
+	// database open READ-ONLY (read-only mount / replica): rows are written by another instance (the harness's
+	// second connection), every audit UPDATE of IsIDBlacklisted fails with SQLITE_READONLY
+	store string
 }
 
 func c22GenHistory(r *rand.Rand, name string) c22History {
@@ -878,6 +885,40 @@ func c22GenHistory(r *rand.Rand, name string) c22History {
 		}
 	}
 
+	// one history in four: the audit write of the revocation lookup (the "last used" UPDATE of
+	// tokens.IsIDBlacklisted) fails during one or two stretches of the history — half of them from the very
+	// first operation on. Reads of the revocation list keep working.
+	if r.Intn(4) == 0 {
+		var at []int
+		if r.Intn(2) == 0 {
+			at = append(at, 0)
+		}
+
+		for k := 1 + r.Intn(3); k > 0; k-- {
+			at = append(at, r.Intn(len(h.ops)+1))
+		}
+
+		sort.Ints(at)
+
+		var ops []c22Op
+
+		on, next := false, 0
+
+		for i := 0; i <= len(h.ops); i++ {
+			for next < len(at) && at[next] == i {
+				on = !on
+				ops = append(ops, c22Op{kind: "wf", jti: map[bool]string{true: "trigger", false: "off"}[on]})
+				next++
+			}
+
+			if i < len(h.ops) {
+				ops = append(ops, h.ops[i])
+			}
+		}
+
+		h.ops = ops
+	}
+
 	return h
 }
 
@@ -946,7 +987,50 @@ func c22Corpus() []c22History {
 		}, p(0), keys(1), adv(121), p(1), p(2), adv(200), p(0)),
 	}
 
-	return append(rotation,
+	// ---- the audit write of the revocation lookup fails (tokens.IsIDBlacklisted stamps "last used" on the row
+	// it found): UPDATE refused by a trigger (stands for disk full / constraint / I/O error), credentials
+	// database opened read-only, write lock held by another connection past the busy timeout. The row was READ:
+	// the token is revoked and must be rejected whatever the write says, on both lookups of ValidateJWT
+	// (result-cache hit, step 5b) and with a cold BlacklistCache (right after the revocation, after its entry aged out).
+	wf := func(k string) c22Op { return c22Op{kind: "wf", jti: k} }
+	purge := c22Op{kind: "purge"}
+	unrev := func(j string) c22Op { return c22Op{kind: "unrev", jti: j} }
+
+	var faults []c22History
+
+	for _, k := range []string{"trigger", "ro", "lock"} {
+		hs := []c22History{
+			mk("audit-write-fails-"+k+"-never-seen", []c22Recipe{good("ecA", "ES256", "e1", "jti-1")},
+				rev("jti-1"), wf(k), p(0), wf("off"), p(0)),
+			mk("audit-write-fails-"+k+"-result-cache-hit", []c22Recipe{good("rsaA", "RS256", "r1", "jti-1")},
+				p(0), rev("jti-1"), wf(k), p(0), p(0), wf("off"), p(0)),
+			mk("audit-write-fails-"+k+"-after-purge", []c22Recipe{good("ecA", "ES256", "e1", "jti-2")},
+				p(0), purge, rev("jti-2"), wf(k), p(0), p(0)),
+			mk("audit-write-fails-"+k+"-blacklist-cache-aged-out", []c22Recipe{long(good("ecA", "ES256", "e1", "jti-2")), long(good("rsaA", "RS256", "r1", "jti-2"))},
+				p(0), rev("jti-2"), p(0), adv(200), wf(k), p(1), p(0), p(1)),
+			mk("audit-write-fails-"+k+"-shared-jti", []c22Recipe{good("ecA", "ES256", "e1", "jti-3"), good("rsaA", "RS384", "r1", "jti-3"), good("rsaA", "RS256", "r1", "jti-4")},
+				p(0), rev("jti-3"), wf(k), p(1), p(0), p(2)),
+		}
+
+		switch k {
+		case "lock":
+			// every cold lookup of a revoked jti waits out the store's 5 s busy timeout (real time)
+			hs = hs[:verifh.N(1, len(hs))]
+		default:
+			hs = append(hs, mk("audit-write-fails-"+k+"-unrevoked-again", []c22Recipe{good("rsaA", "RS256", "r1", "jti-1"), good("ecA", "ES256", "e1", "jti-4")},
+				p(0), wf(k), rev("jti-1"), p(0), p(1), unrev("jti-1"), p(0), rev("jti-4"), p(1), p(0)))
+		}
+
+		for i := range hs {
+			if k == "ro" {
+				hs[i].store = "ro"
+			}
+		}
+
+		faults = append(faults, hs...)
+	}
+
+	return append(append(rotation, faults...),
 		// the defect of the design round: revoked before it was ever presented
 		mk("revoked-before-first-seen", []c22Recipe{good("ecA", "ES256", "e1", "jti-1")}, rev("jti-1"), p(0), p(0)),
 		mk("revoke-then-unrevoke", []c22Recipe{good("rsaA", "RS256", "r1", "jti-1")}, p(0), rev("jti-1"), p(0), p(0),
@@ -1012,6 +1096,104 @@ type c22Run struct {
 	// and Delete calls
 	evMu    sync.Mutex
 	evicted []string
+
+	// fault injection into the revocation store: a second connection to the same SQLite file (another server
+	// instance / administrator / backup); `fault` is the write fault in force ("", "trigger", "lock")
+	side  *sql.Conn
+	fault string
+}
+
+// c22RefuseUpdates makes every UPDATE of the blacklist table fail (INSERT, DELETE and SELECT keep working).
+const c22RefuseUpdates = `CREATE TRIGGER IF NOT EXISTS verif_refuse_update BEFORE UPDATE ON blacklist BEGIN SELECT RAISE(FAIL, 'verif: injected write failure'); END`
+
+func (x *c22Run) sideExec(q string, args ...any) (int64, error) {
+	res, err := x.side.ExecContext(context.Background(), q, args...)
+	if err != nil {
+		return 0, err
+	}
+
+	n, _ := res.RowsAffected()
+
+	return n, nil
+}
+
+// setFault installs the write fault `kind` ("trigger", "lock") or lifts the one in force ("off").
+func (x *c22Run) setFault(t *testing.T, kind string) {
+	var err error
+
+	switch x.fault {
+	case "trigger":
+		_, err = x.sideExec("DROP TRIGGER IF EXISTS verif_refuse_update")
+	case "lock":
+		_, err = x.sideExec("ROLLBACK")
+	}
+
+	if err != nil {
+		t.Fatalf("lifting the write fault %q: %v", x.fault, err)
+	}
+
+	x.fault = ""
+
+	switch kind {
+	case "trigger":
+		_, err = x.sideExec(c22RefuseUpdates)
+	case "lock":
+		_, err = x.sideExec("BEGIN IMMEDIATE")
+	default:
+		return
+	}
+
+	if err != nil {
+		t.Fatalf("installing the write fault %q: %v", kind, err)
+	}
+
+	x.fault = kind
+}
+
+// The three writes to the revocation list. A server that owns its store goes through the real tokens.Blacklist /
+// Delete / Flush; for a server whose store is read-only the rows are written by "the other instance" (the second
+// connection) and this instance's lookup caches are dropped the way the real calls drop them, so that the next
+// lookup is a cold one.
+func (x *c22Run) storeRevoke(ro bool, jti string) error {
+	if !ro {
+		return tokens.Blacklist(jti)
+	}
+
+	_, err := x.sideExec(`INSERT INTO blacklist ("id","user","last","created","expiration","active") VALUES (?, '', '', ?, '', 1)`,
+		jti, time.Now().Format(time.RFC822Z))
+	if err == nil {
+		caches.Purge(caches.BlacklistCache)
+		caches.Purge(caches.AuthCache)
+		caches.Purge(caches.TokenCache)
+	}
+
+	return err
+}
+
+func (x *c22Run) storeUnrevoke(ro bool, jti string) {
+	if !ro {
+		_ = tokens.Delete(jti)
+
+		return
+	}
+
+	if n, err := x.sideExec(`DELETE FROM blacklist WHERE "id" = ?`, jti); err == nil && n > 0 {
+		caches.Delete(caches.BlacklistCache, jti)
+	}
+}
+
+func (x *c22Run) storeFlush(ro bool) error {
+	if !ro {
+		_, err := tokens.Flush()
+
+		return err
+	}
+
+	caches.Purge(caches.BlacklistCache)
+
+	_, err := x.sideExec(`DELETE FROM blacklist`)
+
+	return err
 }
 
 func (x *c22Run) onEvict(id int, key any, _ any) {
@@ -1110,7 +1292,12 @@ func (x *c22Run) history(t *testing.T, h c22History, db string) {
 	resetJWKSCache()
 	resetMissRefresh()
 
-	if _, err := tokens.Flush(); err != nil {
+	ro := h.store == "ro"
+
+	x.setFault(t, "off")
+	defer x.setFault(t, "off")
+
+	if err := x.storeFlush(ro); err != nil {
 		t.Fatalf("flush: %v", err)
 	}
 
@@ -1215,9 +1402,25 @@ func (x *c22Run) history(t *testing.T, h c22History, db string) {
 		return "[" + strings.Join(ks, " ") + "]"
 	}
 	describe := func() string {
-		return fmt.Sprintf("history %s aud=%q userClaim=%s jwtTTL=%ds jwksTTL=%ds jwks=%s ops: %s", h.name, h.cfgAud, h.userClaim,
-			h.jwtTTL, h.jwksTTL, showLayout(h.layouts[0]), strings.Join(trace, "; "))
+		store := ""
+		if ro {
+			store = " revocation-store=READ-ONLY(sqlite mode=ro; rows written by a second connection)"
+		}
+
+		return fmt.Sprintf("history %s aud=%q userClaim=%s jwtTTL=%ds jwksTTL=%ds%s jwks=%s ops: %s", h.name, h.cfgAud, h.userClaim,
+			h.jwtTTL, h.jwksTTL, store, showLayout(h.layouts[0]), strings.Join(trace, "; "))
 	}
+
+	// the write fault in force for the audit UPDATE of a revocation lookup, and whether a lookup of this jti would
+	// be a cold one (no presentation that could have filled the BlacklistCache since the last revocation / flush)
+	writeFault := func() string {
+		if ro {
+			return "readonly"
+		}
+
+		return x.fault
+	}
+	faultSeen := map[string]bool{}
 	fail := func(class, what, got, want string) {
 		x.nfail++
 		if x.nfail <= 40 {
@@ -1226,12 +1429,35 @@ func (x *c22Run) history(t *testing.T, h c22History, db string) {
 	}
 
 	for _, op := range h.ops {
+		// the harness's own writes to the revocation list need the write lock
+		if x.fault == "lock" && (op.kind == "rev" || op.kind == "unrev" || op.kind == "flush") {
+			trace = append(trace, "write-lock-released")
+			x.setFault(t, "off")
+		}
+
 		switch op.kind {
+		case "wf":
+			if ro {
+				continue
+			}
+
+			switch op.jti {
+			case "trigger":
+				trace = append(trace, "FAULT:every-UPDATE-of-the-blacklist-table-fails(trigger RAISE(FAIL))")
+			case "lock":
+				trace = append(trace, "FAULT:second-connection-holds-the-sqlite-write-lock(BEGIN IMMEDIATE)")
+			default:
+				trace = append(trace, "fault-lifted")
+			}
+
+			x.setFault(t, op.jti)
+			x.stats.Inc("op.write-fault." + op.jti)
 		case "rev":
 			trace = append(trace, "revoke "+op.jti)
+			faultSeen = map[string]bool{}
 
 			// the id column is UNIQUE: revoking twice is an error and changes nothing
-			if err := tokens.Blacklist(op.jti); (err != nil) != revoked[op.jti] {
+			if err := x.storeRevoke(ro, op.jti); (err != nil) != revoked[op.jti] {
 				t.Errorf("Blacklist(%q) err=%v, already revoked=%v", op.jti, err, revoked[op.jti])
 			}
 
@@ -1240,14 +1466,15 @@ func (x *c22Run) history(t *testing.T, h c22History, db string) {
 			x.stats.Inc("op.revoke")
 		case "unrev":
 			trace = append(trace, "unrevoke "+op.jti)
-			_ = tokens.Delete(op.jti)
+			x.storeUnrevoke(ro, op.jti)
 			revoked[op.jti] = false
 			x.cases.Write(verifh.Case{In: fmt.Sprintf("unrev %d", x.intern(op.jti)), Impl: "-"})
 			x.stats.Inc("op.unrevoke")
 		case "flush":
 			trace = append(trace, "flush")
+			faultSeen = map[string]bool{}
 
-			if _, err := tokens.Flush(); err != nil {
+			if err := x.storeFlush(ro); err != nil {
 				t.Fatalf("flush: %v", err)
 			}
 
@@ -1314,6 +1541,9 @@ func (x *c22Run) history(t *testing.T, h c22History, db string) {
 			tk := toks[op.tok]
 			rc := tk.rc
 			now := time.Now().Unix()
+
+			wfault := writeFault()
+			wasCached := inCache[tk.id]
 
 			user, _, err := ValidateJWT(1, tk.raw)
 
@@ -1427,6 +1657,20 @@ func (x *c22Run) history(t *testing.T, h c22History, db string) {
 				x.stats.Inc("present.valid")
 			}
 
+			// the situation the write faults are injected for: the jti is revoked, nothing else is wrong with the
+			// token, and no such presentation has warmed the BlacklistCache since the revocation
+			if wfault != "" && isRevoked && bad == 1 && !faultSeen[rc.jti] {
+				faultSeen[rc.jti] = true
+				x.stats.Inc("present.revoked-cold-lookup-under-write-fault")
+				x.stats.Inc("present.revoked-cold-lookup-under-write-fault." + wfault)
+
+				if wasCached {
+					x.stats.Inc("present.revoked-cold-lookup-under-write-fault.result-cache-hit-path")
+				} else {
+					x.stats.Inc("present.revoked-cold-lookup-under-write-fault.step-5b-path")
+				}
+			}
+
 			if err == nil {
 				accepted[tk.id] = true
 				inCache[tk.id] = true
@@ -1466,6 +1710,10 @@ func (x *c22Run) history(t *testing.T, h c22History, db string) {
 
 				key := fmt.Sprintf("%s|fam=%s|kid=%v|pick=%v|seen=%v|boundary=%v|nbf=%v|aud=%v|claim=%s|user=%v|key=%s|rot=%v", failing, tk.fam, tk.kidStr != "",
 					kidPicksSigner, accepted[tk.id], now == tk.exp || now == tk.exp-1, tk.nbf != 0, h.cfgAud != "", h.userClaim, want != "", keyState, rotated)
+				if wfault != "" {
+					key += "|auditwrite=" + wfault
+				}
+
 				if !x.seen[key] {
 					x.seen[key] = true
 					x.stats.Inc("distinct_nontrivial")
@@ -1479,6 +1727,21 @@ func (x *c22Run) history(t *testing.T, h c22History, db string) {
 	}
 
 	_ = db
+}
+
+// c22OpenStore (re)opens the server's revocation store on the file db: read-write, or read-only through an
+// SQLite URI (mode=ro). tokens.SetDatabasePath starts database/sql goroutines: never call it inside a bubble.
+func c22OpenStore(t *testing.T, db string, ro bool) {
+	tokens.Close()
+
+	dsn := "sqlite3://" + db
+	if ro {
+		dsn = "sqlite3://file:" + db + "?mode=ro"
+	}
+
+	if err := tokens.SetDatabasePath(dsn); err != nil {
+		t.Fatalf("blacklist database (%s): %v", dsn, err)
+	}
 }
 
 // c22Drain lets every sweeper goroutine started in this bubble find its cache gone and exit.
@@ -1511,9 +1774,21 @@ func TestVerifC22(t *testing.T) {
 	db := filepath.Join(dir, "c22_blacklist.db")
 	_ = os.Remove(db)
 
-	if err := tokens.SetDatabasePath("sqlite3://" + db); err != nil {
-		t.Fatalf("blacklist database: %v", err)
+	c22OpenStore(t, db, false)
+
+	// the other user of the credentials database
+	other, err := sql.Open("sqlite", db)
+	if err != nil {
+		t.Fatalf("second connection: %v", err)
 	}
+
+	defer other.Close()
+
+	if x.side, err = other.Conn(context.Background()); err != nil {
+		t.Fatalf("second connection: %v", err)
+	}
+
+	defer x.side.Close()
 
 	savedClient := idpClient
 
@@ -1533,12 +1808,31 @@ func TestVerifC22(t *testing.T) {
 	n := verifh.N(400, 6000)
 
 	for i := 0; i < n; i++ {
-		hs = append(hs, c22GenHistory(r, fmt.Sprintf("rand-%d", i)))
+		h := c22GenHistory(r, fmt.Sprintf("rand-%d", i))
+
+		// the last sixteenth of the random histories: a server instance with a read-only credentials database
+		if i >= n-n/16 {
+			h.store = "ro"
+			h.name += "-readonly-store"
+		}
+
+		hs = append(hs, h)
 	}
 
+	roNow := false
+
 	for _, h := range hs {
+		if ro := h.store == "ro"; ro != roNow {
+			c22OpenStore(t, db, ro)
+			roNow = ro
+		}
+
 		synctest.Test(t, func(t *testing.T) { x.history(t, h, db) })
 		x.stats.Inc("histories")
+
+		if h.store == "ro" {
+			x.stats.Inc("histories.readonly-store")
+		}
 
 		if t.Failed() {
 			return
